@@ -25,10 +25,17 @@ TABLE = {
     ("ArrayAssignment2LoopsTrans", "validate"): {
         "raises": 10,
         "consults": [
-            ("node.lhs.walk(", "looking for the array ranges of the LHS"),
-            ("node.walk(", "scanning the assignment for code blocks / "
-             "nested ranges"),
-            ("node.rhs.walk(", "checking calls and references on the RHS"),
+            ("node.lhs.walk(Range)", "looking for the array ranges of the "
+             "LHS"),
+            ("node.walk(ArrayMixin)", "comparing the number of ranges of "
+             "all array accesses"),
+            ("node.walk(CodeBlock)", "refusing code blocks"),
+            ("node.walk(Range)", "refusing nested ranges"),
+            ("node.walk((Literal, Reference))", "refusing character data",
+             ("allow_string",)),
+            ("node.rhs.walk(Call)", "checking the calls on the RHS"),
+            ("node.walk(Reference, stop_type=Reference)", "checking the "
+             "type of every reference"),
         ],
         "contains": [
             ("not call.is_elemental", "non-elemental calls on the RHS "
